@@ -94,8 +94,8 @@ class BiLinearForm(_Form):
                 # sum on gauss points
                 values_e = (values_e_pg * dX_e_pg).integrate()
 
-                # add data
-                data[:, i, j] = values_e
+                # add data (`u * v` on a scalar field carries a trailing axis of size 1)
+                data[:, i, j] = np.reshape(values_e, groupElem.Ne)
 
         return data
 
@@ -171,8 +171,8 @@ class LinearForm(_Form):
             # sum on gauss points
             values_e = (values_e_pg * dX_e_pg).integrate()
 
-            # add data
-            data[:, i] = values_e
+            # add data (a scalar form gives (Ne,), `f * v` on a scalar field gives (Ne, 1))
+            data[:, i, 0] = np.reshape(values_e, groupElem.Ne)
 
         return data
 
@@ -196,8 +196,8 @@ class LinearForm(_Form):
 
         # get values
         values = self.Integrate_e(field=field).ravel()
-        rows = groupElem.Get_rows_e(dof_n).ravel()
-        columns = np.ones_like(rows)
+        rows = groupElem.Get_assembly_e(dof_n).ravel()
+        columns = np.zeros_like(rows)
 
         # get shape
         Ndof = groupElem.Ncoords * dof_n
